@@ -23,6 +23,7 @@ type c16Word struct {
 	Expect string            `json:"expect"` // reject | accept
 	Names  map[string]string `json:"names,omitempty"`
 	Item   int               `json:"item,omitempty"` // index into c16Items
+	Hold   string            `json:"hold,omitempty"` // the item also holds an attribute of this name (the word itself, same spelling)
 }
 
 var c16Values = map[string]model.AV{":v": model.Str("a"), ":a": model.Str("a"), ":b": model.Str("b"), ":n": model.Num("1"), ":t": model.Str("S"), ":s": model.StrSet("x")}
@@ -59,6 +60,9 @@ func caseVariants(w string) []string {
 
 func runC16Word(c c16Word) *failure {
 	item := model.CloneItem(c16Items[c.Item%len(c16Items)])
+	if c.Hold != "" {
+		item[c.Hold] = model.Str("a")
+	}
 	vals := map[string]model.AV{}
 	for _, tok := range model.TokenTexts(c.Expr) {
 		if v, ok := c16Values[tok]; ok {
@@ -130,7 +134,14 @@ func exhaustiveReservedWords(t *testing.T, st *stats.Collector) {
 						failed(c, f)
 					}
 				}
-				c.Item = 0
+				// ... and against an item that really has an attribute spelled like the word
+				c.Item, c.Hold = 0, v
+				n++
+				st.Case(true, []string{c.Kind, c.Expr, "hold"})
+				if f := runC16Word(c); f != nil {
+					failed(c, f)
+				}
+				c.Hold = ""
 				// the same word behind an alias is legal
 				a := c16Word{Kind: p.kind, Expr: fmt.Sprintf(p.tmpl, "#w"), Word: w, Expect: "accept", Names: map[string]string{"#w": v}}
 				n++
@@ -168,7 +179,7 @@ func exhaustiveReservedWords(t *testing.T, st *stats.Collector) {
 	st.SetExtra("exhaustive_subspace", "every reserved word x every bare-name position x {UPPER, lower, mIxed} (plus alias and near-reserved controls)")
 }
 
-const ruleC16 = "two parts. (1) Exhaustive: every word of the reserved list (573) x every bare-name position (27 condition positions: either side of a comparator, each function's path and operand arguments, every BETWEEN / IN operand, head of a dotted path, left of [i], under NOT / AND / OR / parentheses, behind an operand that is missing from the item; 9 update positions: SET / REMOVE / ADD / DELETE target, SET right-hand side, if_not_exists path, head of a nested target, second action, second clause; nested path elements unless the open finding F-RESNESTED applies) x {UPPER, lower, mIxed} x three evaluated items (attributes present, absent, of another type) must be rejected by interpreter.Language; the same word behind a #alias and near-reserved neighbours (WORD1, WORD_x, xWORD) must not be rejected as reserved. (2) rapid state machine through both SDK clients against the restriction oracle of the reference model: placeholder configurations (supplied vs used #names / :values with names that are prefixes of one another, unused, undefined, malformed keys incl. a key of the other map's form; carried by Scan, Put, Delete, Update, Get projections and Query, including the continuation page of a well-formed Query with the same expression texts), key-condition shapes (valid: hash equality alone or AND one sort-key condition of = < <= > >= BETWEEN begins_with, either operand order, parenthesised; invalid: missing hash equality, hash inequality, OR, NOT, non-key attribute, two sort conditions, <>, contains, size, IN), write requests that are neither / both put and delete, batch sizes 0-30 over 1-3 tables: reject -> validation-class error or documented panic and no state change; accept -> no validation error. Non-trivial = every enumerated placement, and generated requests rejected for exactly one reason or accepted while containing a near-miss; distinct = hash of the request."
+const ruleC16 = "two parts. (1) Exhaustive: every word of the reserved list (573) x every bare-name position (27 condition positions: either side of a comparator, each function's path and operand arguments, every BETWEEN / IN operand, head of a dotted path, left of [i], under NOT / AND / OR / parentheses, behind an operand that is missing from the item; 9 update positions: SET / REMOVE / ADD / DELETE target, SET right-hand side, if_not_exists path, head of a nested target, second action, second clause; nested path elements unless the open finding F-RESNESTED applies) x {UPPER, lower, mIxed} x four evaluated items (attributes present, absent, of another type, and an item that holds an attribute spelled exactly like the word) must be rejected by interpreter.Language; the same word behind a #alias and near-reserved neighbours (WORD1, WORD_x, xWORD) must not be rejected as reserved. (2) rapid state machine through both SDK clients against the restriction oracle of the reference model: placeholder configurations (supplied vs used #names / :values with names that are prefixes of one another, unused, undefined, malformed keys incl. a key of the other map's form; carried by Scan, Put, Delete, Update, Get / Scan / Query projections and Query, including the continuation page of a well-formed Query with the same expression texts), key-condition shapes (valid: hash equality alone or AND one sort-key condition of = < <= > >= BETWEEN begins_with, either operand order, parenthesised; invalid: missing hash equality, hash inequality, OR, NOT, non-key attribute, two sort conditions, <>, contains, size, IN), write requests that are neither / both put and delete, batch sizes 0-30 over 1-3 tables: reject -> validation-class error or documented panic and no state change; accept -> no validation error. Non-trivial = every enumerated placement, and generated requests rejected for exactly one reason or accepted while containing a near-miss; distinct = hash of the request."
 
 // TestC16 decides property C16.
 func TestC16(t *testing.T) {
@@ -282,7 +293,30 @@ func TestC16(t *testing.T) {
 					op.Values[bad] = model.Str("a")
 					class = "malformed-value-key"
 				}
-				switch rapid.IntRange(0, 6).Draw(rt, "carrier") {
+				switch rapid.IntRange(0, 8).Draw(rt, "carrier") {
+				case 7, 8:
+					// Scan / Query whose names are used by the projection expression only
+					// (no Select parameter: the projection alone asks for specific attributes)
+					op.Kind, op.Values = "Scan", nil
+					if rapid.Bool().Draw(rt, "projectionOnQuery") {
+						op.Kind, op.KeyCond = "Query", s.Hash+" = :hkv"
+						op.Values = map[string]model.AV{":hkv": c16KeyValue(w.m, s.Table, s.Hash)}
+					}
+					var parts []string
+					for n := range op.Names {
+						if validName(n) {
+							parts = append(parts, n)
+						}
+					}
+					sort.Strings(parts)
+					op.Projection = strings.Join(append(parts, "a"), ", ")
+					if class == "unused-value" || class == "undefined-value" || class == "malformed-value-key" || class == "undefined-name" {
+						class = "placeholders-exact"
+					}
+					if len(usedN) == 0 && class == "placeholders-exact" {
+						op.Names = nil
+					}
+					st.Class("names-used-by-a-projection-only")
 				case 5, 6:
 					// Query; in half of the cases as the continuation page of a
 					// well-formed first page with the same expression texts
